@@ -39,6 +39,10 @@ CHECKS = {
          "Random GKR topologies (add/mul/neg/sub and custom gates, fan-out, Series dependencies, 2^k instances) on both builders and the test engine: exported values must equal direct in-circuit evaluation; with GkrInfo detached and the genuine hints wrapped, 10 forgery kinds (altered outputs, proofs of another statement, altered proof elements, an adaptive attack that learns the first challenge) must all be unsatisfiable; every solve runs under a watchdog.",
          "Single-instance topologies do not compile on this tree (recorded as an observation, outside the property); a cheating sum-check prover is not built, so bugs only exploitable by fabricating round polynomials are out of reach.",
          "DESIGN.md §3 C19"),
+ "C08": ("structure-aware mutation of genuine artifacts with a crash + structural oracle (rapid; native fuzzing in the thorough tier)",
+         "Genuine proofs, keys and witnesses of generated circuits on all curves and both backends are mutated at the byte level (length prefixes, truncation at and inside every slot, garbage, bit flips, zeros; compressed and raw) and at the object level (lists resized / nil, witnesses of wrong length or field, headers disagreeing with the payload); no call may panic, byte counts must stay within the input, and structurally inconsistent inputs must be reported as errors.",
+         "Length prefixes are capped at payload/elemsize+64 because of open finding F05 (fatal out-of-memory inside gnark-crypto's decoders, probed in a memory-limited child process on every run); arbitrary byte strings are reached only through mutations of genuine encodings.",
+         "DESIGN.md §3 C08"),
 }
 
 PENDING = {}
